@@ -298,11 +298,26 @@ var imagePixels = [][6]color.RGBA{
 	{{230, 20, 20, 255}, {20, 200, 20, 255}, {20, 20, 230, 255}, {230, 220, 20, 255}, {20, 210, 220, 255}, {120, 120, 120, 255}},
 	// with an alpha channel: two half-transparent pixels and a fully transparent one
 	{{230, 20, 20, 255}, {10, 100, 10, 128}, {20, 20, 230, 255}, {0, 0, 0, 0}, {20, 210, 220, 255}, {60, 60, 60, 128}},
+	// the alpha image again, as a sub-image whose bounds start at (2,1) of a larger image
+	{{230, 20, 20, 255}, {10, 100, 10, 128}, {20, 20, 230, 255}, {0, 0, 0, 0}, {20, 210, 220, 255}, {60, 60, 60, 128}},
 }
-var imageNames = []string{"3x2 image of six opaque colours", "3x2 image with alpha (pixels (1,0) and (2,1) at alpha 128, pixel (0,1) transparent)"}
+var imageNames = []string{"3x2 image of six opaque colours", "3x2 image with alpha (pixels (1,0) and (2,1) at alpha 128, pixel (0,1) transparent)",
+	"the same 3x2 image with alpha as a sub-image with bounds (2,1)-(5,3) of a 7x5 image of other colours"}
 var imageRes = []float64{0.25, 0.5} // pixels per millimetre: 12 mm x 8 mm and 6 mm x 4 mm
 
 func mkImage(v int) *image.RGBA {
+	if v == 2 {
+		big := image.NewRGBA(image.Rect(0, 0, 7, 5))
+		for y := 0; y < 5; y++ {
+			for x := 0; x < 7; x++ {
+				big.SetRGBA(x, y, color.RGBA{uint8(40 * x), uint8(250 - 50*y), 90, 255})
+			}
+		}
+		for k, px := range imagePixels[v] {
+			big.SetRGBA(2+k%3, 1+k/3, px)
+		}
+		return big.SubImage(image.Rect(2, 1, 5, 3)).(*image.RGBA)
+	}
 	im := image.NewRGBA(image.Rect(0, 0, 3, 2))
 	for k, px := range imagePixels[v] {
 		im.SetRGBA(k%3, k/3, px)
